@@ -1,11 +1,12 @@
 Require Extraction.
 Require Import ExtrOcamlBasic.
 From CSL Require Import Base.Prelude Cbor.Head Addr.VarNat Addr.Crc32 Addr.Byron Addr.Base58 Addr.Shelley
-  Addr.Bech32Iface Addr.Check.
+  Addr.Bech32Iface Addr.Bech32 Addr.Check.
 Extraction Language OCaml.
 Definition keepN : N := N.add 0 0.
 Definition keepZ : Z := Z.add 0 0.
 Definition keepNat : nat := length (@nil N).
 Extraction "model_c11.ml" keepN keepZ keepNat model_dec judge_dec model_enc judge_enc model_b58 judge_b58
   base58_decode base58_encode accessors to_bytes from_bytes embedded_decode default_prefix crc32
-  varnat_encode varnat_decode wf_addressb lenient_class panic_class.
+  varnat_encode varnat_decode wf_addressb lenient_class panic_class
+  model_bech model_bech5 model_bechd judge_bech check_hrp.
